@@ -40,12 +40,12 @@ type obsSpec struct {
 	Accepted bool      `json:"accepted"`
 	Logged   bool      `json:"logged,omitempty"` // refused although an event was written to the PLog
 	Err      string    `json:"err,omitempty"`
-	NewIDs   []pair    `json:"new_ids"`           // hook sequence (direct) / response map (cmd), sorted by raw id
-	Offset   uint64    `json:"plog_offset"`       // where the event was logged
-	Arg      []rowSpec `json:"stored_arg"`        // argument tree read back from the PLog, pre-order
-	Creates  []rowSpec `json:"stored_creates"`    // new CUD rows read back from the PLog
-	Updates  []rowSpec `json:"stored_updates"`    // update CUD rows read back from the PLog, sorted by id
-	Records  []rowSpec `json:"records"`           // IRecords.Get of every create right after the event
+	NewIDs   []pair    `json:"new_ids"`        // hook sequence (direct) / response map (cmd), sorted by raw id
+	Offset   uint64    `json:"plog_offset"`    // where the event was logged
+	Arg      []rowSpec `json:"stored_arg"`     // argument tree read back from the PLog, pre-order
+	Creates  []rowSpec `json:"stored_creates"` // new CUD rows read back from the PLog
+	Updates  []rowSpec `json:"stored_updates"` // update CUD rows read back from the PLog, sorted by id
+	Records  []rowSpec `json:"records"`        // IRecords.Get of every create right after the event
 	ApplyErr string    `json:"apply_err,omitempty"`
 }
 
@@ -56,18 +56,22 @@ type eventSpec struct {
 	Arg     *nodeSpec `json:"arg,omitempty"`
 	Creates []rowSpec `json:"creates,omitempty"`
 	Updates []rowSpec `json:"updates,omitempty"`
-	Singles []uint64  `json:"singleton_ids,omitempty"` // observed registry IDs for creates of kind Single (by position), filled at run time
+	Dropped []uint64  `json:"dropped_updates,omitempty"` // replay only: update targets that do not exist on this tree
+	Singles []uint64  `json:"singleton_ids,omitempty"`   // observed registry IDs for creates of kind Single (by position), filled at run time
 	Obs     *obsSpec  `json:"observed,omitempty"`
 }
 
 type stepSpec struct {
 	Event   *eventSpec `json:"event,omitempty"`
 	Restart bool       `json:"restart,omitempty"`
+	Skipped bool       `json:"skipped,omitempty"` // replay only: the event had nothing left after dropping updates
 }
 
 type scenario struct {
-	Note  string      `json:"note,omitempty"`
-	Steps []*stepSpec `json:"steps"`
+	Note string `json:"note,omitempty"`
+	// replay only: events left empty after dropping updates of records that do not exist on the replayed tree
+	SkippedSteps int         `json:"skipped_steps,omitempty"`
+	Steps        []*stepSpec `json:"steps"`
 }
 
 func flatten(n *nodeSpec, parent uint64, out *[]rowSpec) {
@@ -434,6 +438,9 @@ type exec struct {
 	x        *runner
 	cmdPhase bool
 	n        int
+	// replaying a stored scenario on another tree: earlier steps may end differently there (an event refused
+	// instead of accepted), so a record a later step updates may not exist; such update rows are dropped
+	lenient bool
 }
 
 func newExec() (*exec, error) {
@@ -455,6 +462,22 @@ func (e *exec) step(st *stepSpec) (err error) {
 	case st.Event != nil:
 		ev := st.Event
 		sort.Slice(ev.Updates, func(i, j int) bool { return ev.Updates[i].ID < ev.Updates[j].ID })
+		if e.lenient && len(ev.Updates) > 0 {
+			kept := ev.Updates[:0]
+			for _, u := range ev.Updates {
+				rec, err := e.x.rig.life.as.Records().Get(istructs.WSID(ev.WS), true, istructs.RecordID(u.ID))
+				if err == nil && rec.QName() != appdef.NullQName {
+					kept = append(kept, u)
+				} else {
+					ev.Dropped = append(ev.Dropped, u.ID)
+				}
+			}
+			ev.Updates = kept
+			if ev.Arg == nil && len(ev.Creates) == 0 && len(ev.Updates) == 0 {
+				st.Skipped = true
+				return nil
+			}
+		}
 		e.x.singletonIDs(ev)
 		if ev.Via == "cmd" {
 			e.cmdPhase = true
@@ -495,6 +518,7 @@ func run(sc *scenario) error {
 	if err != nil {
 		return err
 	}
+	e.lenient = true
 	for _, st := range sc.Steps {
 		if st.Event != nil {
 			st.Event.Obs = nil
@@ -504,6 +528,15 @@ func run(sc *scenario) error {
 			return err
 		}
 	}
+	kept := sc.Steps[:0]
+	for _, st := range sc.Steps {
+		if st.Skipped {
+			sc.SkippedSteps++
+		} else {
+			kept = append(kept, st)
+		}
+	}
+	sc.Steps = kept
 	return e.finish(sc)
 }
 
